@@ -1068,12 +1068,48 @@ def pushjob_contract(I, w, job):
     return SInt(jid1)
 
 
+def guarantee_clauses(I, S):
+    """What every atomic segment guarantees to the greenlets suspended meanwhile, relating the state P at the start of
+    the segment to the current state S (the RELY of a puller blocked in AsyncResult.get, used by segment B of rpc_qpull,
+    is the reflexive-transitive closure of these; each relation is itself reflexive and transitive, so it is also a
+    loop invariant of the state-modifying loops):
+      G1 a job's connection attribution changes only to 0 or to the connection this segment serves
+      G2 allocated jobs stay allocated; done is monotone; job id immutable; a serial, once set, immutable
+      G3 a waiter made ready in this segment holds a job that is unfinished or was finished later in this segment ...
+         stated on the hand-off itself: see pushjob_post; here: a waiter that was ready keeps its value
+      G5 a job pushed for the first time in this segment has an id under which every job pushed earlier is finished"""
+    P = I.ghost.get("S_pre")
+    if P is None:
+        return []
+    own = I.ghost.get("own_conn", z3.IntVal(0))
+    vj = valid_job
+
+    def g1(x):
+        was = z3.If(vj(P, x), z3.Select(P["conn"], x), z3.IntVal(0))
+        now = z3.Select(S["conn"], x)
+        return z3.Implies(z3.And(vj(S, x), now != was), z3.Or(now == 0, now == own))
+
+    def g2(x):
+        return z3.Implies(vj(P, x), z3.And(vj(S, x),
+                                           z3.Implies(z3.Select(P["j_done"], x), z3.Select(S["j_done"], x)),
+                                           z3.Select(S["j_jobid"], x) == z3.Select(P["j_jobid"], x),
+                                           z3.Implies(z3.Select(P["j_serial"], x) != 0, z3.Select(S["j_serial"], x) == z3.Select(P["j_serial"], x))))
+
+    def g5(x, y):
+        first_push = z3.And(vj(S, x), z3.Select(S["j_serial"], x) != 0, z3.Or(z3.Not(vj(P, x)), z3.Select(P["j_serial"], x) == 0))
+        earlier = z3.And(vj(P, y), z3.Select(P["j_serial"], y) != 0, z3.Select(P["j_jobid"], y) == z3.Select(S["j_jobid"], x))
+        return z3.Implies(z3.And(first_push, earlier), z3.Select(S["j_done"], y))
+    return [("G1_connection_attribution_only_to_own_connection", Forall(["job"], g1)),
+            ("G2_done_monotone_ids_and_serials_immutable", Forall(["job"], g2)),
+            ("G5_first_push_only_under_an_id_whose_earlier_jobs_are_finished", Forall(["job", "job"], g5))]
+
+
 def state_loop_spec(extra=None, extra_havoc=(), rebinding=None):
     """LoopSpec for a loop whose body modifies the abstract state: the state is havocked
     and the global invariant is the loop invariant (plus `extra` facts)."""
     def invariant(I, v, it):
         S = st(I)
-        cl = inv_quantified(S)
+        cl = inv_quantified(S) + guarantee_clauses(I, S)
         if extra:
             cl = cl + extra(I, v, it)
         return cl
